@@ -1517,6 +1517,10 @@ class MacroFunction(Macro):
 
             input_args[len(self.args) - 1 :] = [(va_args_raw, va_args_exp)]
 
+        # Tokens that come from an argument (as operands of # and ##) are not
+        # parameters, even if they are spelled like one.
+        from_argument = set()
+
         if self.has_strcat:
             res_tokens = []
             last_cat = False
@@ -1542,6 +1546,7 @@ class MacroFunction(Macro):
                         nexttok = input_args[argidx][0]  # Unexpanded arg
                     except ValueError:
                         nexttok = [nexttok]
+                    from_argument.update(id(t) for t in last + nexttok)
                     if len(last) > 0 and len(nexttok) == 0:
                         # Pasting with an empty argument leaves the other
                         # operand unchanged.
@@ -1554,6 +1559,7 @@ class MacroFunction(Macro):
                                 f"Invalid concatenation: {lex.string}",
                             )
                         tok.prev_white = last[-1].prev_white
+                        from_argument.add(id(tok))
                         toadd = last[:-1] + [tok] + nexttok[1:]
                         if toadd[0].prev_white != prev_white:
                             cp = copy(toadd[0])
@@ -1579,6 +1585,7 @@ class MacroFunction(Macro):
                         )
                     tok = Lexer.stringify(tok)
                     tok.prev_white = tok.prev_white
+                    from_argument.add(id(tok))
                     last_cat = True
                     res_tokens.append(tok)
                 else:
@@ -1596,6 +1603,8 @@ class MacroFunction(Macro):
             # If a token matches an argument, it is substituted;
             # otherwise it passes through
             try:
+                if id(token) in from_argument:
+                    raise ValueError
                 substitution = input_args[self.args.index(token.token)][1]
                 if len(substitution) > 0:
                     substitution[0] = copy(substitution[0])
